@@ -151,6 +151,9 @@ def c01(tier):
     out.append(T("substr_ds_default_len", paramop("substr", ["DS_S"], [2, optional()]), n))
     out.append(T("calc_substr", calc("DS_X", [(None, "Me_9", paramop("substr", ["Me_4"], [1, 1]))]), n))
     out.append(T("calc_substr_concat", calc("DS_X", [(None, "Me_9", binop("||", paramop("substr", ["Me_4"], [2]), "Me_4"))]), n))
+    out.append(T("replace_ds", paramop("replace", ["DS_S"], [const("a"), const("b")]), n))
+    out.append(T("replace_ds_default", paramop("replace", ["DS_S"], [const("a")]), n))
+    out.append(T("calc_replace_comp", calc("DS_X", [(None, "Me_9", paramop("replace", ["Me_4"], [const("a"), "Id_2"]))]), n))
     out.append(T("calc_len_upper", calc("DS_X", [(None, "Me_9", unop("length", unop("upper", "Me_4")))]), n))
     out.append(T("calc_div_expr", calc("DS_X", [(None, "Me_9", binop("/", "Me_2", binop("-", "Me_1", 2)))]), n))
     # depth 2 compositions
